@@ -270,6 +270,19 @@ theorem C06_wand_machine_sound_intersection {σ : Type} (cb : σ → Nat → Nat
     (fun p hp x hx => ⟨Nat.zero_le _, hb p hp x hx⟩) hv
   simpa using this
 
+/-- the pivot rule speaks about the machine's state: for the scorers `ps` (at fixed positions) with
+global bounds `ms`, if `ts` is their arrangement sorted by current document, then every document
+before `find_pivot_doc`'s pivot — every document at all if there is none — is dead. Hence every
+`seek` of any scorer up to the pivot (what `align_scorers` does) is a valid move of the machine
+and `None` licenses stopping, PROVIDED `UB_max`. -/
+theorem C06_wand_pivot_moves_valid (θ : Nat) (ps : List Wand.Postings) (ms : List Nat)
+    (hlen : ps.length = ms.length) (ts : List Wand.TermList) (hperm : ts ~ Wand.views ps ms)
+    (hs : Wand.SortedByCur ts)
+    (hub : ∀ t, t ∈ ts → ∀ p, p ∈ t.postings → p.2 ≤ t.maxScore) :
+    (∀ piv, Wand.findPivot θ ts 0 = some piv → ∀ d, d < piv → Wand.unionTotal ps d ≤ θ) ∧
+    (Wand.findPivot θ ts 0 = none → ∀ d, Wand.unionTotal ps d ≤ θ) :=
+  Wand.pivot_dead θ ps ms hlen ts hperm hs hub
+
 /-
 NOT YET PROVED (stated): `C06_wand_union_skipsBelow`, `C06_wand_intersection_skipsBelow` — the
 complete `block_wand` loop (block-max refinement of the pivot, `block_max_was_too_low_advance_one_scorer`,
